@@ -2,4 +2,4 @@ Require Extraction.
 Require Import ExtrOcamlBasic.
 From IronCalc Require Import UserModel.History UserModel.HistoryId.
 Extraction Language OCaml.
-Extraction "model_c03.ml" HistoryId.wire_run HistoryId.id_init HistoryId.replica_after.
+Extraction "model_c03.ml" HistoryId.wire_run HistoryId.id_init HistoryId.replica_after HistoryId.flush_after.
